@@ -235,6 +235,118 @@ def fromLogChecked (log : Option Log) (gitAdded gitDeleted aiAccepted : Nat)
 
 /-! ## numstat parsing (`get_git_diff_stats`) -/
 
+/-! ### `utils::unescape_git_path` (applied to the path field before the ignore matcher) -/
+
+/-- `char::encode_utf8` as bytes -/
+def utf8Encode (c : Char) : List Nat :=
+  let n := c.toNat
+  if n < 0x80 then [n]
+  else if n < 0x800 then [0xC0 + n / 64, 0x80 + n % 64]
+  else if n < 0x10000 then [0xE0 + n / 4096, 0x80 + n / 64 % 64, 0x80 + n % 64]
+  else [0xF0 + n / 262144, 0x80 + n / 4096 % 64, 0x80 + n / 64 % 64, 0x80 + n % 64]
+
+def isOct (c : Char) : Bool := '0' ≤ c && c ≤ '7'
+
+/-- the loop that collects up to `n` octal digits: (digits, remaining input) -/
+def takeOct : Nat → Str → Str × Str
+  | 0, s => ([], s)
+  | _ + 1, [] => ([], [])
+  | n + 1, c :: cs =>
+    if isOct c then ((takeOct n cs).1.cons c, (takeOct n cs).2) else ([], c :: cs)
+
+def octVal : Str → Nat → Nat
+  | [], acc => acc
+  | c :: cs, acc => octVal cs (acc * 8 + (c.toNat - 48))
+
+/-- the escape-decoding loop over the text between the quotes, producing bytes -/
+def unescapeInner : Nat → Str → List Nat
+  | 0, _ => []
+  | _ + 1, [] => []
+  | f + 1, c :: rest =>
+    if c = '\\' then
+      match rest with
+      | [] => [92]                                   -- trailing backslash: kept
+      | d :: r =>
+        if d = '\\' then 92 :: unescapeInner f r
+        else if d = '"' then 34 :: unescapeInner f r
+        else if d = 'n' then 10 :: unescapeInner f r
+        else if d = 't' then 9 :: unescapeInner f r
+        else if d = 'r' then 13 :: unescapeInner f r
+        else if d = 'a' then 7 :: unescapeInner f r
+        else if d = 'b' then 8 :: unescapeInner f r
+        else if d = 'f' then 12 :: unescapeInner f r
+        else if d = 'v' then 11 :: unescapeInner f r
+        else if isDigit d then
+          -- up to three octal digits; `u8::from_str_radix` fails on "" and on values > 255,
+          -- in which case nothing is pushed (the backslash and the digits are dropped)
+          let o := (takeOct 3 (d :: r)).1
+          let r' := (takeOct 3 (d :: r)).2
+          let v := octVal o 0
+          (if o.isEmpty || decide (255 < v) then [] else [v]) ++ unescapeInner f r'
+        else 92 :: unescapeInner f (d :: r)          -- unknown escape: keep the backslash
+    else utf8Encode c ++ unescapeInner f rest
+
+def isCont (b : Nat) : Bool := decide (0x80 ≤ b) && decide (b ≤ 0xBF)
+
+/-- U+FFFD -/
+def replChar : Char := Char.ofNat 0xFFFD
+
+/-- `String::from_utf8(bytes).unwrap_or_else(|e| from_utf8_lossy(..))`: UTF-8 decoding where
+    every maximal invalid subpart becomes one U+FFFD. `fuel` ≥ length. -/
+def utf8Lossy : Nat → List Nat → Str
+  | 0, _ => []
+  | _ + 1, [] => []
+  | f + 1, b0 :: rest =>
+    if b0 < 0x80 then Char.ofNat b0 :: utf8Lossy f rest
+    else if 0xC2 ≤ b0 ∧ b0 ≤ 0xDF then
+      match rest with
+      | b1 :: r1 =>
+        if isCont b1 then Char.ofNat ((b0 - 0xC0) * 64 + (b1 - 0x80)) :: utf8Lossy f r1
+        else replChar :: utf8Lossy f rest
+      | [] => [replChar]
+    else if 0xE0 ≤ b0 ∧ b0 ≤ 0xEF then
+      match rest with
+      | b1 :: r1 =>
+        let ok1 := if b0 = 0xE0 then decide (0xA0 ≤ b1) && decide (b1 ≤ 0xBF)
+                   else if b0 = 0xED then decide (0x80 ≤ b1) && decide (b1 ≤ 0x9F) else isCont b1
+        if ok1 then
+          match r1 with
+          | b2 :: r2 =>
+            if isCont b2 then
+              Char.ofNat ((b0 - 0xE0) * 4096 + (b1 - 0x80) * 64 + (b2 - 0x80)) :: utf8Lossy f r2
+            else replChar :: utf8Lossy f r1
+          | [] => [replChar]
+        else replChar :: utf8Lossy f rest
+      | [] => [replChar]
+    else if 0xF0 ≤ b0 ∧ b0 ≤ 0xF4 then
+      match rest with
+      | b1 :: r1 =>
+        let ok1 := if b0 = 0xF0 then decide (0x90 ≤ b1) && decide (b1 ≤ 0xBF)
+                   else if b0 = 0xF4 then decide (0x80 ≤ b1) && decide (b1 ≤ 0x8F) else isCont b1
+        if ok1 then
+          match r1 with
+          | b2 :: r2 =>
+            if isCont b2 then
+              match r2 with
+              | b3 :: r3 =>
+                if isCont b3 then
+                  Char.ofNat ((b0 - 0xF0) * 262144 + (b1 - 0x80) * 4096 + (b2 - 0x80) * 64 + (b3 - 0x80))
+                    :: utf8Lossy f r3
+                else replChar :: utf8Lossy f r2
+              | [] => [replChar]
+            else replChar :: utf8Lossy f r1
+          | [] => [replChar]
+        else replChar :: utf8Lossy f rest
+      | [] => [replChar]
+    else replChar :: utf8Lossy f rest
+
+/-- `unescape_git_path`: as is unless at least two bytes long, starting and ending with `"`. -/
+def unescapeGitPath (p : Str) : Str :=
+  if decide (2 ≤ p.length) && p.head? = some '"' && p.getLast? = some '"' then
+    let bytes := unescapeInner p.length p.tail.dropLast
+    utf8Lossy bytes.length bytes
+  else p
+
 /-- `line.chars().next().is_some_and(|c| c.is_ascii_digit())` -/
 def startsWithDigit : Str → Bool
   | c :: _ => isDigit c
@@ -248,7 +360,7 @@ def numstatLine (ign : Str → Bool) (line : Str) : Nat × Nat :=
   else if !startsWithDigit line then (0, 0)
   else match splitOn '\t' line with
     | a :: d :: f :: _ =>
-      if ign f then (0, 0)
+      if ign (unescapeGitPath f) then (0, 0)
       else
         ((parseU32 a).getD 0,
          if d ≠ ['-'] then (parseU32 d).getD 0 else 0)
